@@ -52,6 +52,12 @@ Theorem C08_diag_rule_agrees : forall (R : Type) (RR : Ring R) (CR : CRing R) df
   d = true_diag (fst (shape e)) (snd (shape e)) (den e) k.
 Proof. intros R RR CR. exact diag_rule_agrees. Qed.
 Print Assumptions C08_diag_rule_agrees.
+Theorem C08_generic_diag_cases : forall (R : Type) (RR : Ring R) (CR : CRing R) df B al (e : op (R:=R)) n k,
+  (1 <= B)%nat -> (1 <= n)%nat -> wf e = true -> shape e = (n, n) ->
+  generic_diag df B al e k = generic_outcome df B n al k (true_diag n n (den e) k).
+Proof. intros R RR CR. exact generic_diag_cases. Qed.
+Print Assumptions C08_generic_diag_cases.
+
 (* 3. trace: generic (sum of the main diagonal) and Kronecker (product of the factors' traces) *)
 Theorem C08_trace_correct : forall (R : Type) (RR : Ring R) (CR : CRing R) df B al, (1 <= B)%nat ->
   forall (e : op (R:=R)) t, tdwf df e = true -> trace_rule df B al e = inr t -> t = true_trace (fst (shape e)) (den e).
